@@ -229,6 +229,22 @@ def g1c(ctx, res):
         after = vb.body[vb.body.index(lp) + 1:]
         if any(not isinstance(x, (ast.Return, ast.Pass)) for x in after) or any(isinstance(x, ast.Return) and x.value is not None for x in after):
             verdict = None if verdict else verdict
+    if verdict is None:
+        dep_names = set()
+        for node, b in find("MV_d = self.params['dependencies'].get(MV_k)", vb.body):
+            dep_names.add(name_of(b["MV_d"]))
+        for node, b in find("MV_d = self.params['dependencies'].get(MV_k, MV__)", vb.body):
+            dep_names.add(name_of(b["MV_d"]))
+        for n in walk_own(vb.body):
+            if isinstance(n, ast.For) and isinstance(n.target, ast.Tuple) and len(n.target.elts) == 2 and "dependencies" in norm(n.iter):
+                dep_names.add(norm(n.target.elts[1]))
+        for n in walk_own(vb.body):
+            if isinstance(n, (ast.If, ast.IfExp)):
+                t, _pol = strip_not(n.test)
+                if (isinstance(t, ast.Name) and t.id in dep_names) or matches_any(t, [
+                        "self.params['dependencies'].get(MV_k)", "self.params['dependencies'].get(MV_k, MV__)",
+                        "self.params['dependencies'][MV_k]"]):
+                    verdict = False  # a dependency schema tested by truthiness: the false schema is falsy
     res.judge(verdict, dp, "for each dependency whose key is present: list => Required rule, schema => must validate", detail=detail,
               reason="a dependency applies exactly when its key is in the value; every dependency is visited")
     vs = ctx.func("Dependencies.validate_schema_dependency")
@@ -1137,8 +1153,10 @@ def g9(ctx, res):
 
 
 # --------------------------------------------------------------------- G10
-def _eval_name_filter(test, var, name):
+def _eval_name_filter(test, var, name, consts=None):
     """Evaluate a filter condition over a string variable for a concrete name."""
+    consts = consts or {}
+
     def ev(e):
         if isinstance(e, ast.BoolOp):
             vals = [ev(v) for v in e.values]
@@ -1156,6 +1174,8 @@ def _eval_name_filter(test, var, name):
                 return name.endswith(e.args[0].value)
         if isinstance(e, ast.Compare) and len(e.ops) == 1 and norm(e.left) == var:
             r = e.comparators[0]
+            if isinstance(r, ast.Name) and r.id in consts:
+                r = consts[r.id]
             if isinstance(r, ast.Constant):
                 if isinstance(e.ops[0], ast.Eq):
                     return name == r.value
@@ -1224,9 +1244,16 @@ def g10(ctx, res):
         raise AnalysisError("Element.__eq__: the attribute filter is no longer recognisable")
     conds, var = keepers
 
+    consts = {}
+    for n in walk_own(eq.body):
+        if isinstance(n, ast.Assign) and len(n.targets) == 1 and isinstance(n.targets[0], ast.Name):
+            consts[n.targets[0].id] = n.value
+    for cname, cexpr in eq.module.consts.items():
+        consts.setdefault(cname, cexpr)
+
     def kept(name):
         for t, pol in conds:
-            v_ = _eval_name_filter(t, var, name)
+            v_ = _eval_name_filter(t, var, name, consts)
             if v_ is None:
                 return None
             if v_ != pol:
